@@ -124,4 +124,4 @@ def check(case, ctx):
 
 
 def subchecks():
-    return [HypSub("applicability", cases, check, 8000, 100000)]
+    return [HypSub("applicability", cases, check, 20000, 250000)]
